@@ -111,6 +111,7 @@ let run (path : String.t) =
       if not (obs_c02_ok evs) then (add "c02"; add "c08"; why := "obs_c02" :: !why);
       if not (obs_c10_ok evs) then (add "c10"; why := "obs_c10" :: !why);
       if not (obs_rr_c09_bounded_ok evs) then (add "c09"; why := "bounded" :: !why);
+      if not (obs_rr_repoll_ok evs) then (add "c09"; add "c11"; why := "parked_without_repolling_a_ready_stream" :: !why);
       if not (obs_rr_flushed_at_completion evs) then (add "c16"; why := "unflushed_at_completion" :: !why);
       let drained = (fin = "quiesce" || fin = "close") && !special = None in
       if drained then begin
@@ -123,6 +124,7 @@ let run (path : String.t) =
         if fin = "quiesce" && not was_closed && not (obs_replies_delivered evs) then (add "c02"; add "c09"; why := "replies_delivered" :: !why);
         if not was_closed && not (obs_c10_final_ok evs) then (add "c10"; add "c09"; why := "c10_final" :: !why);
         if fin = "quiesce" && not was_closed && not (obs_requests_flushed evs) then (add "c02"; add "c09"; why := "requests_flushed" :: !why);
+        if fin = "quiesce" && not was_closed && not (obs_rstreams_polled_to_pending evs) then (add "c09"; add "c11"; add "c02"; why := "stream_left_ready" :: !why);
         if fin = "quiesce" && not was_closed && not (obs_no_request_stranded evs) then (add "c02"; add "c08"; add "c11"; why := "request_stranded" :: !why);
         if fin = "close" && not (rcompleted evs) then (add "c16"; add "c09"; why := "not_completed" :: !why)
       end;
